@@ -13,6 +13,7 @@ import (
 	"crypto/elliptic"
 	"crypto/rand"
 	"crypto/rsa"
+	"crypto/x509"
 	"encoding/asn1"
 	"encoding/binary"
 	"fmt"
@@ -106,7 +107,7 @@ var rvNames = map[uint64]string{CKR_OK: "OK", CKR_SLOT_ID_INVALID: "SLOT_ID_INVA
 	CKR_MECHANISM_PARAM_INVALID: "MECHANISM_PARAM_INVALID", CKR_OBJECT_HANDLE_INVALID: "OBJECT_HANDLE_INVALID", CKR_OPERATION_ACTIVE: "OPERATION_ACTIVE",
 	CKR_OPERATION_NOT_INITIALIZED: "OPERATION_NOT_INITIALIZED", CKR_PIN_INCORRECT: "PIN_INCORRECT", CKR_PIN_LOCKED: "PIN_LOCKED", CKR_SESSION_HANDLE_INVALID: "SESSION_HANDLE_INVALID",
 	CKR_TOKEN_NOT_PRESENT: "TOKEN_NOT_PRESENT", CKR_TOKEN_NOT_RECOGNIZED: "TOKEN_NOT_RECOGNIZED", CKR_USER_ALREADY_LOGGED_IN: "USER_ALREADY_LOGGED_IN",
-	CKR_USER_NOT_LOGGED_IN: "USER_NOT_LOGGED_IN", CKR_BUFFER_TOO_SMALL: "BUFFER_TOO_SMALL", CKR_CRYPTOKI_ALREADY_INIT: "CRYPTOKI_ALREADY_INITIALIZED", CKR_TEMPLATE_INCONSISTENT: "TEMPLATE_INCONSISTENT"}
+	CKR_USER_NOT_LOGGED_IN: "USER_NOT_LOGGED_IN", CKR_BUFFER_TOO_SMALL: "BUFFER_TOO_SMALL", CKR_CRYPTOKI_ALREADY_INIT: "CRYPTOKI_ALREADY_INITIALIZED", CKR_TEMPLATE_INCONSISTENT: "TEMPLATE_INCONSISTENT", 0x54: "FUNCTION_NOT_SUPPORTED"}
 
 // RVByName: the inverse, for knobs
 func RVByName(n string) uint64 {
@@ -146,6 +147,7 @@ type Knobs struct {
 	RightPin string            //
 	LoggedIn bool              // the token is already logged in (another application's session)
 	Fail     map[string]string // "<Function>" or "<Function>#<n>" (n-th call of the case, from 1) -> CK_RV name
+	NoWrap   bool              // the token cannot generate secret keys (C_GenerateKey not supported)
 }
 
 type findOp struct {
@@ -158,6 +160,7 @@ type signOp struct {
 	cached []byte // computed at the length query
 }
 type session struct {
+	enc  bool // an encryption operation is active
 	conn int
 	slot uint64
 	rw   bool
@@ -450,10 +453,7 @@ func (m *Model) serve(c net.Conn) {
 			m.cur = 0
 		}
 		rv := m.dispatch(fn, r, w)
-		var nap time.Duration
-		if fn == 14 /* SignInit */ {
-			nap = m.delay["SignInit"]
-		}
+		nap := m.delay[map[uint64]string{11: "FindObjects", 14: "SignInit", 16: "CreateObject"}[fn]]
 		m.mu.Unlock()
 		if nap > 0 {
 			time.Sleep(nap) // a slow token: the call has been recorded, its answer takes a while
@@ -585,6 +585,10 @@ func (m *Model) dispatch(fn uint64, r *rd, w *wr) uint64 {
 		fnGetInfo
 		fnGetSlotInfo
 		fnCloseAll
+		fnGenKey
+		fnEncryptInit
+		fnEncrypt
+		fnUnwrap
 	)
 	switch fn {
 	case fnInitialize:
@@ -1073,6 +1077,137 @@ func (m *Model) dispatch(fn uint64, r *rd, w *wr) uint64 {
 			}
 		}
 		m.log("DestroyObject", "", rv)
+		return rv
+	case fnGenKey:
+		// a secret key for wrapping: the model does not hold key material, only the object
+		h := r.u64()
+		mech, _ := r.u64(), r.bytes()
+		t := r.template()
+		s, ok := m.sessions[h]
+		rv := uint64(CKR_OK)
+		oh := uint64(0)
+		switch f, fok := m.forced("GenerateKey"); {
+		case fok:
+			rv = f
+		case !ok:
+			rv = CKR_SESSION_HANDLE_INVALID
+		case !m.isLogged(s.slot):
+			rv = CKR_USER_NOT_LOGGED_IN
+		case m.k.NoWrap:
+			rv = 0x54 // CKR_FUNCTION_NOT_SUPPORTED: a token without secret-key generation
+		default:
+			attrs := map[uint64][]byte{CKA_CLASS: ulong(4) /* CKO_SECRET_KEY */, CKA_LABEL: []byte("wrapkey")}
+			for _, a := range t {
+				attrs[a.typ] = append([]byte{}, a.val...)
+			}
+			m.nextObj++
+			oh = m.nextObj
+			m.objects = append(m.objects, &Object{Handle: oh, Attrs: attrs, Slot: s.slot})
+		}
+		m.log("GenerateKey", fmt.Sprintf("mech=0x%x", mech), rv)
+		w.u64(oh)
+		return rv
+	case fnEncryptInit:
+		h := r.u64()
+		mech, _ := r.u64(), r.bytes()
+		kh := r.u64()
+		s, ok := m.sessions[h]
+		rv := uint64(CKR_OK)
+		switch f, fok := m.forced("EncryptInit"); {
+		case fok:
+			rv = f
+		case !ok:
+			rv = CKR_SESSION_HANDLE_INVALID
+		case s.enc:
+			rv = CKR_OPERATION_ACTIVE
+		case m.objByHandle(kh, s.slot) == nil:
+			rv = CKR_KEY_HANDLE_INVALID
+		default:
+			s.enc = true
+		}
+		m.log("EncryptInit", fmt.Sprintf("mech=0x%x", mech), rv)
+		return rv
+	case fnEncrypt:
+		// "encryption" is the identity with a marker: only C_UnwrapKey of this model ever reads it
+		h := r.u64()
+		data, want, capacity := r.bytes(), r.u64(), r.u64()
+		s, ok := m.sessions[h]
+		if !ok || !s.enc {
+			rv := uint64(CKR_OPERATION_NOT_INITIALIZED)
+			if !ok {
+				rv = CKR_SESSION_HANDLE_INVALID
+			}
+			m.log("Encrypt", "", rv)
+			w.u64(0)
+			w.u64(0)
+			return rv
+		}
+		out := append([]byte("WRAPPED:"), data...)
+		if want == 0 {
+			w.u64(uint64(len(out)))
+			w.u64(0)
+			return CKR_OK
+		}
+		if capacity < uint64(len(out)) {
+			w.u64(uint64(len(out)))
+			w.u64(0)
+			return CKR_BUFFER_TOO_SMALL
+		}
+		s.enc = false
+		rv := uint64(CKR_OK)
+		if f, fok := m.forced("Encrypt"); fok {
+			rv = f
+		}
+		m.log("Encrypt", "", rv)
+		if rv != CKR_OK {
+			w.u64(0)
+			w.u64(0)
+			return rv
+		}
+		w.u64(uint64(len(out)))
+		w.u64(1)
+		w.Write(out)
+		return rv
+	case fnUnwrap:
+		h := r.u64()
+		mech, _ := r.u64(), r.bytes()
+		uk := r.u64()
+		wrapped := r.bytes()
+		t := r.template()
+		s, ok := m.sessions[h]
+		rv := uint64(CKR_OK)
+		oh := uint64(0)
+		switch f, fok := m.forced("UnwrapKey"); {
+		case fok:
+			rv = f
+		case !ok:
+			rv = CKR_SESSION_HANDLE_INVALID
+		case m.objByHandle(uk, s.slot) == nil:
+			rv = 0x110 // CKR_UNWRAPPING_KEY_HANDLE_INVALID
+		case !bytes.HasPrefix(wrapped, []byte("WRAPPED:")):
+			rv = 0x112 // CKR_WRAPPED_KEY_INVALID
+		default:
+			key, err := x509.ParsePKCS8PrivateKey(wrapped[8:])
+			signer, isSigner := key.(crypto.Signer)
+			if err != nil || !isSigner {
+				rv = 0x112
+				break
+			}
+			attrs := map[uint64][]byte{}
+			for _, a := range t {
+				attrs[a.typ] = append([]byte{}, a.val...)
+			}
+			// the token fills in what the key itself determines
+			switch pk := signer.Public().(type) {
+			case *rsa.PublicKey:
+				attrs[CKA_MODULUS], attrs[CKA_PUBLIC_EXPONENT] = pk.N.Bytes(), big.NewInt(int64(pk.E)).Bytes()
+			}
+			m.nextObj++
+			oh = m.nextObj
+			m.objects = append(m.objects, &Object{Handle: oh, Attrs: attrs, Slot: s.slot, Signer: signer})
+		}
+		m.log("UnwrapKey", fmt.Sprintf("mech=0x%x ", mech)+describeTemplate(sorted(t)), rv)
+		w.u64(oh)
 		return rv
 	case fnGenKeyPair:
 		h := r.u64()
